@@ -3,4 +3,7 @@ EXTENDS Threads
 P1 == << <<"close">>, <<"zsend", "send">>, <<"zsend", "close">> >>
 P2 == << <<"zsend", "zsend">>, <<"zsend", "ctl">>, <<"ctl", "send">> >>
 P3 == << <<"close", "send">>, <<"close">>, <<"ctl", "close">> >>
+\* the loop processes the server's Close (echo, or the reply to our own Close) against close() and sends on other threads
+P4 == << <<"close">>, <<"srvclose">>, <<"send", "send">> >>
+P5 == << <<"srvclose", "srvclose">>, <<"close", "send">>, <<"ctl">> >>
 ====
